@@ -1120,10 +1120,11 @@ func runStep(p *hx.Plan, idx int, st map[string]interface{}) hx.Event {
 		}
 	}
 	if shape == "one" && c.Sib != "" && c.Sib != "none" {
-		// the sibling's drop: stamped after every drop record of the step (always, for sibling partitions of a collection that is
-		// itself dropped: an earlier stamp would make the writer skip the sibling's drop), or well before the op
+		// the sibling's drop: stamped after every drop record of the step, or - a sibling database / collection, whose drop
+		// consults no record of the step - well before the op (a sibling partition's drop stamped before the recorded create
+		// time of its collection would be skipped by the writer, and rightly so)
 		sibTs := dropTs + c.Delta2
-		if c.SibBefore && !(c.Sib == "member" && obj == "dropped") && lo > 2*c.Delta2+5000 {
+		if c.SibBefore && c.Sib != "member" && lo > 2*c.Delta2+5000 {
 			sibTs = lo - c.Delta2 - 5000
 		}
 		switch c.Sib {
